@@ -1695,7 +1695,7 @@ func (z *zoneEngine) analyse(fn *ssa.Function) {
 	}
 	// canonical field loads: loads of the same field path with no intervening store
 	var loads []*ssa.UnOp
-	eachInstr(fn, func(in ssa.Instruction) {
+	eachInstrRaw(fn, func(in ssa.Instruction) {
 		if u, ok := in.(*ssa.UnOp); ok && u.Op == token.MUL {
 			if _, _, ok := fieldOf(u.X); ok && (isSeqType(u.Type()) || (z.useGetters && isIntType(u.Type()))) {
 				loads = append(loads, u)
@@ -1732,7 +1732,7 @@ func (z *zoneEngine) analyse(fn *ssa.Function) {
 	// operands, computed again where the first computation dominates, is the same value
 	{
 		var ariths []*ssa.BinOp
-		eachInstr(fn, func(in ssa.Instruction) {
+		eachInstrRaw(fn, func(in ssa.Instruction) {
 			if bo, ok := in.(*ssa.BinOp); ok && isIntType(bo.Type()) {
 				switch bo.Op {
 				case token.ADD, token.SUB, token.MUL:
@@ -1763,7 +1763,7 @@ func (z *zoneEngine) analyse(fn *ssa.Function) {
 		z.canon[k] = rep(k)
 	}
 	z.sameBinOps = map[binopKey][]*ssa.BinOp{}
-	eachInstr(fn, func(in ssa.Instruction) {
+	eachInstrRaw(fn, func(in ssa.Instruction) {
 		if bo, ok := in.(*ssa.BinOp); ok {
 			switch bo.Op {
 			case token.EQL, token.NEQ, token.LSS, token.LEQ, token.GTR, token.GEQ:
@@ -1775,7 +1775,7 @@ func (z *zoneEngine) analyse(fn *ssa.Function) {
 	z.heapTerms, z.lineKills = nil, nil
 	if z.useHeap {
 		z.lineKills = map[ssa.Instruction]bool{}
-		eachInstr(fn, func(in ssa.Instruction) {
+		eachInstrRaw(fn, func(in ssa.Instruction) {
 			if lineChange(z.p, in) {
 				z.lineKills[in] = true
 			}
